@@ -309,7 +309,7 @@ func runC12(c *eng.Ctx) {
 			}
 			for _, a := range ap.Args[1:] {
 				if name, val, isB := envBinding(info, a); isB {
-					got[name] = eng.SelObj(info, val)
+					got[name] = pathObj(info, run.Decl.Body, val, pathVarOf)
 					envsVar = eng.SelObj(info, as.Lhs[0])
 				}
 			}
@@ -330,7 +330,7 @@ func runC12(c *eng.Ctx) {
 			for _, call := range callsIn(info, run.Decl.Body, func(o types.Object, _ *ast.CallExpr) bool {
 				return o != nil && o.Name() == name && (pkgHint == "" || (o.Pkg() != nil && strings.HasSuffix(o.Pkg().Path(), pkgHint)))
 			}) {
-				if len(call.Args) == 1 && eng.SelObj(info, call.Args[0]) == pathVarOf[rb.prep] && pathVarOf[rb.prep] != nil {
+				if len(call.Args) == 1 && pathObj(info, run.Decl.Body, call.Args[0], pathVarOf) == pathVarOf[rb.prep] && pathVarOf[rb.prep] != nil {
 					ok = true
 				}
 			}
@@ -590,4 +590,33 @@ func runC12R6(c *eng.Ctx, r *eng.RuleCtx) {
 		}
 	}
 	r.Ok("stores to exec.Cmd.WaitDelay / Cancel enumerated", token.NoPos, fmt.Sprintf("%d non-zero store(s) in the product packages", n))
+}
+
+// pathObj names the variable behind e: e itself, or - when e is a local that is assigned exactly once from another
+// variable (a copy made by a helper's parameter or a result struct) - the first variable of that chain that is one of
+// the path variables.
+func pathObj(info *types.Info, body ast.Node, e ast.Expr, pathVars map[string]types.Object) types.Object {
+	first := eng.SelObj(info, e)
+	for i := 0; i < 4; i++ {
+		o := eng.SelObj(info, e)
+		for _, pv := range pathVars {
+			if o != nil && pv == o {
+				return o
+			}
+		}
+		id, ok := ast.Unparen(e).(*ast.Ident)
+		if !ok {
+			break
+		}
+		v, isV := info.ObjectOf(id).(*types.Var)
+		if !isV || v.IsField() {
+			break
+		}
+		es := eng.AssignedExprs(info, body, v)
+		if len(es) != 1 {
+			break
+		}
+		e = es[0]
+	}
+	return first
 }
